@@ -1,10 +1,11 @@
 (* C07/Properties.v — hostile or malformed packets never crash or wedge the control plane.
-   `is_crash r = false` means: r is neither Panic (Go would panic) nor OutOfFuel (the loop might not
-   terminate).  Every top-level parser runs its loops with fuel S (length input) (see Model.v), so a
-   theorem about the top-level definition carries the length-derived bound; the *_fuel theorems state
-   the bound explicitly for the recursive walks.  All statements are for the Repaired variant (= the
-   code with fixes/C07_*.patch applied; identical to today's code everywhere except a declared PPP
-   length below 4).  Each theorem is closed by [exact] of a lemma of Proofs.v. *)
+   `is_crash r = false` means: r is neither Panic (Go would panic) nor OutOfFuel (the loop might not terminate).
+   Every top-level parser runs its loops with fuel S (length input) (Model.v), so a theorem about the top-level
+   definition carries the length-derived bound; the *_fuel theorems state the bound explicitly.
+   Variants: Repaired = /repo HEAD (both recorded findings are fixed upstream: 7065ffb, 890d5a0); Defective = the code
+   before those commits, kept only for the *_refuted and *_repair_conservative theorems.
+   Sections: totality per entry point; RADIUS/CoA/IPoE/L2TP byte handling; bounded worker pools; round trips.
+   Each theorem is closed by [exact] of a lemma of Proofs.v / RoundTrip.v. *)
 From OV Require Import Common.Base C07.Model C07.Proofs C07.RoundTrip.
 Local Open Scope N_scope.
 
@@ -419,3 +420,15 @@ Theorem C07_dhcp4_split_roundtrip_refuted :
             length (q_dns (w_opts m)) = 63%nat /\ lenN dns64 = 4 * 64.
 Proof. exact dhcp4_split_refuted. Qed.
 Print Assumptions C07_dhcp4_split_roundtrip_refuted.
+
+(* ---- PPP control header: every sender in the repo frames code | id | length | data; the parsers give it back ---- *)
+Theorem C07_ppp_header_roundtrip :
+  forall v code id d, lenN d + 4 < 65536 -> ppp_hdr v (build_ppp code id d) = Ok (code, id, d).
+Proof. exact ppp_hdr_roundtrip. Qed.
+Print Assumptions C07_ppp_header_roundtrip.
+Theorem C07_dispatcher_roundtrip :
+  forall v cfg code id d, lenN d + 4 < 65536 ->
+  handle_frame v cfg 49187 (build_ppp code id d) = Ok (RPap code id d) /\
+  handle_frame v cfg 49699 (build_ppp code id d) = Ok (RChap code id d).
+Proof. exact dispatcher_roundtrip. Qed.
+Print Assumptions C07_dispatcher_roundtrip.
